@@ -308,6 +308,25 @@ CHECKS['C12'] = ('DESIGN.md#C12',
     'blend members >= 1 FWHM apart (true and initial), windows >= 15 px, '
     'truth inside the bounds; everything else is counted as inconclusive.')
 
+CHECKS['C20'] = ('DESIGN.md#C20',
+    'Hypothesis-generated analytic galaxies (Gaussian / Sersic laws, any '
+    'centre, ellipticity, PA, size, square and non-square frames) and '
+    'fit_image configurations vs. the known geometry with calibrated '
+    'tolerances; structural and exact fixed-parameter assertions; model '
+    'image vs. the galaxy; scalar-vs-array coordinate transform',
+    'Generated-input search: the isophote list is strictly increasing in '
+    'sma within [minsma, maxsma]; well-sampled isophotes recover centre, '
+    'ellipticity, PA and intensity within 3x the reported errors plus '
+    'calibrated absolute tolerances; fix_center/fix_pa/fix_eps values equal '
+    'the initial geometry exactly on every isophote (also with maxit '
+    'exhausted); build_ellipse_model reproduces the galaxy inside the '
+    'calibrated fitted region; EllipseGeometry.to_polar agrees between '
+    'scalar and array forms and with atan2; the image is untouched. Held on '
+    'N cases (tens of fits in the quick tier, thousands in thorough).',
+    'Tolerances are empirical with >=3x margin. Empty results are '
+    'inconclusive. Known findings F30 (fix_pa rotated by 90 deg when eps '
+    'crosses 0) and F31 (model PA wrap) excluded by signature.')
+
 NOT_APPLICABLE = []
 
 
